@@ -985,14 +985,19 @@ def _strip_ev(irj):
     return irj
 
 
-def make_domain_cases(r, d, emitters=EMITTERS, styles=STYLES):
+def make_domain_cases(r, d, emitters=EMITTERS, styles=STYLES, func_both=False):
+    """`func_both`: the function emitter once with and once without type annotations per style"""
     irj = dir_to_ir(d)
     probes = [[k, t] for k, p in enumerate(d["params"]) for t in probe_texts(p["typ"])]
     cases = []
     for e in emitters:
         for st in styles:
-            cases.append({"emitter": e, "cfg": gen_cfg(r, e, st), "ir": irj, "dir": d, "argvs": [[]], "probes": probes if e == "argparse" else [],
-                          "via_file": r.random() < 0.25})
+            for ta in ((True, False) if (func_both and e == "function") else (None,)):
+                cfg = gen_cfg(r, e, st)
+                if ta is not None:
+                    cfg["type_annotations"] = ta
+                cases.append({"emitter": e, "cfg": cfg, "ir": irj, "dir": d, "argvs": [[]], "probes": probes if e == "argparse" else [],
+                              "via_file": r.random() < 0.25})
     return cases
 
 
@@ -1090,6 +1095,23 @@ def run(chk: core.Check) -> int:
     # hand-picked corner interfaces (the ones named in the property's rationale)
     for d in CORNERS:
         cases += make_domain_cases(rng, d)
+    # sparsely / un-documented interfaces: no interface doc; parameter docs present with probability 0 / 0.5; with and without return entry and
+    # defaults; every emitter x style, the function emitter with and without type annotations
+    n_sparse = 40 if chk.quick else 1200
+    n_sparse_cases = 0
+    for i in range(n_sparse):
+        d = gen_dir(rng, nparams=rng.choice([0, 1, 1, 2, 3, 4]), sparse=0.0 if i % 2 == 0 else 0.5)
+        if i % 5 == 0:
+            for p in d["params"]:  # an interface with no default at all / all defaults
+                p["default"] = None if i % 10 == 0 else (p["default"] or gen_ddefault(rng, p["typ"]))
+        cs = make_domain_cases(rng, d, func_both=True)
+        n_sparse_cases += len(cs)
+        cases += cs
+    for d in SPARSE_CORNERS:
+        cs = make_domain_cases(rng, d, func_both=True)
+        n_sparse_cases += len(cs)
+        cases += cs
+    stats["sparse_doc_programs"] = n_sparse_cases
     obs, models, descs = run_batch(chk, cases, stats)
     n_ast, n_sem, n_desc = evaluate(chk, cases, obs, models, descs, stats)
     for c, o, ds in zip(cases, obs, descs):
@@ -1127,9 +1149,10 @@ def run(chk: core.Check) -> int:
     chk.coverage["stats"] = dict(sorted(stats.items()))
     return chk.finish("domain: %d generated interface descriptions (0-5 parameters; scalars, Optional, Union, List, Literal[str...], Literal single / with int members, "
                       "Optional[Literal], Annotated[T, 'note'], Tuple[T, ...], Callable[..., T]; literal defaults incl. 0 / 0.0 / False / '' / None) + %d corner "
-                      "interfaces, each x {class, pydantic, function, argparse} x {rest, google, numpydoc} with random flags; non-trivial = well-formed per EmitIface.DIR.WF (the theorems' domain) and has a parameter with a default; "
+                      "interfaces + %d sparsely/un-documented interfaces (no interface doc, parameter docs with probability 0 / 0.5, function with and "
+                      "without type annotations), each x {class, pydantic, function, argparse} x {rest, google, numpydoc} with random flags; non-trivial = well-formed per EmitIface.DIR.WF (the theorems' domain) and has a parameter with a default; "
                       "wide stream: %d IRs outside the domain (dict, nested, absent type, code-quoted defaults, *kwargs names) x 3 emitters, model-vs-code only"
-                      % (n_dom, len(CORNERS), n_wide))
+                      % (n_dom, len(CORNERS), n_sparse + len(SPARSE_CORNERS), n_wide))
 
 
 def _p(name, typ, default=None, doc="the thing"):
@@ -1166,6 +1189,19 @@ CORNERS = [
     {"name": "F", "doc": "Summary.", "returns": None, "params": [_p("x", {"k": "union", "members": ["int", "float"]}, {"k": "int", "v": 0})]},
     {"name": "F", "doc": "Summary.", "returns": None, "params": [_p("x", {"k": "literal", "members": [{"k": "s", "v": "only"}]})]},
     {"name": "F", "doc": "Summary.", "returns": None, "params": [_p("x", {"k": "literal", "members": [{"k": "s", "v": "a"}, {"k": "i", "v": 1}]})]},
+]
+
+
+# fully undocumented interfaces (what cdd.class_.parse.class_ gives for an undocumented class): with / without defaults, return entry
+SPARSE_CORNERS = [
+    {"name": "configure", "doc": "", "returns": None, "params": [
+        dict(_p("retries", {"k": "scalar", "s": "int"}, {"k": "int", "v": 3}, doc=""), nodoc=True),
+        dict(_p("verbose", {"k": "scalar", "s": "bool"}, {"k": "bool", "v": False}, doc=""), nodoc=True),
+        dict(_p("label", {"k": "optional", "s": "str"}, {"k": "none"}, doc=""), nodoc=True)]},
+    {"name": "configure", "doc": "", "returns": {"typ": {"k": "scalar", "s": "int"}, "doc": "", "nodoc": True}, "params": [
+        dict(_p("retries", {"k": "scalar", "s": "int"}, doc=""), nodoc=True)]},
+    {"name": "configure", "doc": "", "returns": None, "params": []},
+    {"name": "configure", "doc": "", "returns": {"typ": {"k": "optional", "s": "float"}, "doc": "", "nodoc": True}, "params": []},
 ]
 
 
